@@ -79,6 +79,12 @@ type tcase struct {
 	OurRsv  []int  `json:"our_rsv"`
 	OurPid  []int  `json:"our_pid"`
 	WaitSec int    `json:"wait_sec"`
+	// FAULT (case "w"): the connection breaks inside the frame of message CutAt (0-based; -1/absent: no fault).  The transport
+	// decides how many bytes it still takes from the length of the Write alone: CutK >= 0 counts from the start of the
+	// frame, CutK < 0 from its end (always fewer than the whole frame).  CutErr: "op" = *net.OpError, else a plain error.
+	CutAt  *int   `json:"cut_at"`
+	CutK   int    `json:"cut_k"`
+	CutErr string `json:"cut_err"`
 	// case "chs": handshakes of several connections in flight at the same time
 	Conns []tcase `json:"conns"`
 	Sched []struct {
@@ -380,11 +386,42 @@ type capConn struct {
 	recC   chan []byte
 	closeC chan struct{}
 	once   sync.Once
+	// fault: the cutAt-th Write (0-based) is taken only in part and fails; every later Write fails outright
+	cutAt, cutK  int
+	cutErr       error
+	nw           int
+	cutN, cutGot int // length of the Write that was cut / bytes taken from it (-1: none yet)
 }
 
-func newCapConn() *capConn { return &capConn{recC: make(chan []byte), closeC: make(chan struct{})} }
+func newCapConn() *capConn {
+	return &capConn{recC: make(chan []byte), closeC: make(chan struct{}), cutAt: -1, cutGot: -1}
+}
 
 func (c *capConn) Write(b []byte) (int, error) {
+	if c.cutGot >= 0 { // the connection is broken
+		return 0, c.cutErr
+	}
+	if c.nw == c.cutAt {
+		k := c.cutK
+		if k < 0 {
+			k = len(b) + k
+		}
+		if k > len(b)-1 {
+			k = len(b) - 1
+		}
+		if k < 0 {
+			k = 0
+		}
+		cp := append([]byte(nil), b[:k]...)
+		select {
+		case c.recC <- cp:
+			c.cutN, c.cutGot = len(b), k
+			return k, c.cutErr
+		case <-c.closeC:
+			return 0, io.ErrClosedPipe
+		}
+	}
+	c.nw++
 	cp := append([]byte(nil), b...)
 	select {
 	case c.recC <- cp:
@@ -537,6 +574,14 @@ func (d *drv) emit(e ev) {
 // run one connection of the real writer
 func (d *drv) writerCase(c *tcase) error {
 	conn := newCapConn()
+	if c.CutAt != nil && *c.CutAt >= 0 {
+		conn.cutAt, conn.cutK = *c.CutAt, c.CutK
+		if c.CutErr == "op" {
+			conn.cutErr = &net.OpError{Op: "write", Net: "tcp", Err: errors.New("connection reset by peer (scripted)")}
+		} else {
+			conn.cutErr = errors.New("broken pipe (scripted)")
+		}
+	}
 	w := peerwriter.New(conn, logger.New("c11"), 1<<20, c.Fast, nil)
 	go w.Run()
 	var stream []byte
@@ -597,6 +642,9 @@ func (d *drv) writerCase(c *tcase) error {
 	c.Msgs = append(c.Msgs, msg{K: "not_interested"})
 	for i := range c.Msgs {
 		m := &c.Msgs[i]
+		if conn.cutAt >= 0 && i > conn.cutAt {
+			break
+		}
 		if m.K == "piece" {
 			w.SendPiece(peerprotocol.RequestMessage{Index: u32(m.Index), Begin: u32(m.Begin), Length: uint32(m.Plen)}, pieceData{m})
 		} else {
@@ -605,6 +653,31 @@ func (d *drv) writerCase(c *tcase) error {
 				return err
 			}
 			w.SendMessage(rm)
+		}
+		if i == conn.cutAt {
+			// the broken write: the transport hands over what it took; the writer reports (BlockUploaded) BEFORE it looks at
+			// the error and closes the connection after it - when Close has been seen every report has been consumed
+			if !take(20 * time.Second) {
+				return fmt.Errorf("the write that was to be cut never came (message %d)", i)
+			}
+			t := time.NewTimer(20 * time.Second)
+		drain:
+			for {
+				select {
+				case x := <-w.Messages():
+					if bu, ok := x.(peerwriter.BlockUploaded); ok {
+						upl += int64(bu.Length)
+						nup++
+					}
+				case <-conn.closeC:
+					break drain
+				case <-t.C:
+					t.Stop()
+					return fmt.Errorf("the writer did not close the connection after a failed write")
+				}
+			}
+			t.Stop()
+			break
 		}
 		if !wait(i + 1) {
 			break
@@ -619,6 +692,42 @@ func (d *drv) writerCase(c *tcase) error {
 		if len(fr) >= 13 && fr[4] == 7 {
 			wirepl += len(fr) - 13
 		}
+	}
+	if conn.cutGot >= 0 {
+		// what the transport took of the broken frame is the tail of the captured stream (by the transport's own count)
+		part := stream[len(stream)-conn.cutGot:]
+		frames, leftover = cut(stream[:len(stream)-conn.cutGot])
+		if leftover != 0 {
+			return fmt.Errorf("stream before the broken frame does not consist of whole frames")
+		}
+		leftover = len(part)
+		if len(part) > 13 && part[4] == 7 {
+			wirepl += len(part) - 13
+		}
+		c.Msgs = c.Msgs[:conn.cutAt+1]
+		for i := range c.Msgs[:conn.cutAt] {
+			m := &c.Msgs[i]
+			f := noFrame()
+			if i < len(frames) {
+				f = frameDesc(frames[i], len(m.payload()))
+			}
+			d.emit(ev{"op": "Send", "m": m.describe(), "w": f})
+		}
+		m := &c.Msgs[conn.cutAt]
+		hl := conn.cutN - len(m.payload()) // header length of the frame (by the input payload length)
+		if hl < 0 {
+			hl = 0
+		}
+		if hl > len(part) {
+			hl = len(part)
+		}
+		all := []int{} // small frames completely (the 17-byte reject that answers a duplicate request)
+		if conn.cutN <= 17 {
+			all = ints(part)
+		}
+		d.emit(ev{"op": "Cut", "m": m.describe(), "w": ev{"n": conn.cutN, "k": conn.cutGot, "part": ints(part[:hl]), "all": all}, "err": c.CutErr})
+		d.emit(ev{"op": "End", "frames": len(frames), "sent": conn.cutAt, "leftover": leftover, "upl": int(upl), "wirepl": wirepl, "nup": nup})
+		return nil
 	}
 	for i := range c.Msgs {
 		m := &c.Msgs[i]
